@@ -88,6 +88,11 @@ def all_corruptions(base: dict, g):
     cases.append(("enum:geometric_constraints.method", ("set", "geometric_constraints", "method", "HEXAGON")))
     cases.append(("enum:design.flow_type", ("set", "design", "flow_type", "PERPIPE")))
     cases.append(("enum:simulation.timestep", ("set", "simulation", "timestep", "DAILY")))
+    # more shapes of an unknown name: empty, a known name with a suffix / prefix, a name of another section
+    for sec, key in (("fluid", "fluid_name"), ("pipe", "arrangement"), ("geometric_constraints", "method"), ("design", "flow_type"), ("simulation", "timestep")):
+        known = str(base[sec].get(key, "HYBRID"))
+        for tag, vv in (("empty", ""), ("suffix", known + "_"), ("prefix", "X" + known), ("other-section", "WATER" if sec != "fluid" else "COAXIAL")):
+            cases.append((f"enum-{tag}:{sec}.{key}", ("set", sec, key, vv)))
     cases.append(("range:simulation.num_months", ("set", "simulation", "num_months", 0)))
     cases.append(("missing-section:loads", ("delsec", "loads", None, None)))
     cases.append(("missing-section:grout", ("delsec", "grout", None, None)))
@@ -155,6 +160,38 @@ def run_shard(spec):
             for ci, (cname, op) in enumerate(corr):
                 jobs.append((bname, cname, op))
         jobs = [j for k, j in enumerate(jobs) if k % spec["nshards"] == spec["shard"]]
+        # ---- in-process verdict lane: the validator's verdict on EVERY corruption of this shard's slice (both tiers), against the
+        # independent per-section validation; the CLI lanes below then exercise exit status and outputs on a sample (quick) or all (thorough)
+        from ghedesigner.validate import validate_input_file
+        import contextlib
+        import io
+
+        for k, (bname, cname, op) in enumerate(jobs):
+            inst = apply(bases[bname], op)
+            fpath = Path(workdir) / f"v_{k}.json"
+            fpath.write_text(json.dumps(inst))
+            errs = independent_validate(json.loads(fpath.read_text()))
+            sink = io.StringIO()
+            try:
+                with contextlib.redirect_stderr(sink), contextlib.redirect_stdout(sink):
+                    n_err = validate_input_file(fpath)
+            except Exception as e:  # noqa: BLE001 - a validator that raises is not a verdict
+                n_err = f"{type(e).__name__}: {e}"
+            fpath.unlink()
+            res["verdicts"] = res.get("verdicts", 0) + 1
+            record(("valid" if not errs else "invalid") + ":in-process-verdict")
+            res["nontrivial"].append([bname, cname, "validate_input_file"])
+            case = {"base": bname, "corruption": cname, "mode": "validate_input_file", "expected_valid": not errs, "schema_errors": errs[:2]}
+            if isinstance(n_err, str):
+                # a validator that raises has not accepted the file (the CLI turns the exception into a non-zero exit, judged by the
+                # CLI lanes); it is a wrong verdict only for a valid input
+                record("in-process-verdict-by-exception")
+                if not errs:
+                    bad("valid-input-rejected:validator-raised", f"{bname} {cname}: {n_err[:200]}", case)
+            elif errs and n_err == 0:
+                bad("invalid-input-validated:" + cname.split(":")[0] + ":" + errs[0][0], f"{bname} {cname}: validate_input_file counts 0 errors although {errs[0]}", case)
+            elif not errs and n_err != 0:
+                bad("valid-input-rejected:in-process", f"{bname} {cname}: {n_err} errors: {sink.getvalue()[-200:]}", case)
         if spec["limit"]:
             sel = g.permutation(len(jobs))[: spec["limit"]]
             jobs = [jobs[i] for i in sorted(sel)]
@@ -272,7 +309,7 @@ def check(tier, seed):
     results = run_pool("vf.props.C18", specs, timeout=7200)
     rep = Report(PROP)
     rep.rule = (
-        "invocations of the real CLI in subprocesses (the `ghedesigner` console script, `python -m ghedesigner.manager`, and the click command called from -c): every single-field corruption (missing key, wrong type, negative, unknown enum, out of "
+        "validate_input_file on every single-field corruption of every base (both tiers) against independent per-section schema validation; invocations of the real CLI in subprocesses (the `ghedesigner` console script, `python -m ghedesigner.manager`, and the click command called from -c): every single-field corruption (missing key, wrong type, negative, unknown enum, out of "
         "range, missing section, bad loads) and every letter-case variant of the five documented names of 12 small demo-style inputs "
         "(6 methods x single-U/coaxial) [quick: a seeded sample of 14 per shard; thorough: all], run as --validate-only / plain / plain without "
         "output directory; plus full valid runs with output-file inventory, --convert IDF on the produced summary, --convert XYZ, -c idf and "
@@ -283,7 +320,8 @@ def check(tier, seed):
         if "_harness_error" in r:
             rep.inconclusive.append("shard failed: " + r["_harness_error"][:300])
             continue
-        rep.evaluations += r["runs"]
+        rep.evaluations += r["runs"] + r.get("verdicts", 0)
+        rep.count("in_process_validator_verdicts", r.get("verdicts", 0))
         rep.count("watchdog_timeouts_not_judged", r["skipped_timeouts"])
         for k2, v2 in r["classes"].items():
             classes[k2] = classes.get(k2, 0) + v2
